@@ -964,21 +964,70 @@ def wire_layers(case):
     return [layer[:4] for layer in case['layers']]
 
 
+def limits_numbers(case, trace):
+    """every number of a limits case and of its trace (quarter units: value * LSCALE; integers on the coarse grid, binary64
+    values next to a limit are not)"""
+    nums = [case['lo'], case['hi'], case['value0']]
+    for op in case['ops']:
+        nums += [v for v in op[1:-1] if isinstance(v, (int, float)) and not isinstance(v, bool)]
+    for t in trace:
+        nums += [t['value'], t['write']] + (t['setLimits'] or [])
+        for lim in (t['before'], t['after']):
+            nums += [lim['min'], lim['max']] + (lim['limits'] or [])
+        for e in t['evs']:
+            nums += e[1:]
+    return [x for x in nums if x is not None]
+
+
+def limits_den(case, trace):
+    """common denominator of all numbers of the case (binary64 values are dyadic rationals): the model and the monitor work on
+    exact integers, whatever the distance between a value and a limit"""
+    den = 1
+    for x in limits_numbers(case, trace):
+        den = max(den, Fraction(x).denominator)
+    return den
+
+
+def lsc(den, x):
+    if x is None or isinstance(x, (str, bool)):
+        return x
+    if isinstance(x, list):
+        return [lsc(den, v) for v in x]
+    f = Fraction(x) * den
+    assert f.denominator == 1, (x, den)
+    return int(f)
+
+
 def wire_limits(case, trace):
-    return {'p': 'C18', 'k': 'limits', 'lo': case['lo'], 'hi': case['hi'], 'layers': wire_layers(case), 'hasW': case['hasW'],
-            'omit': bool(case.get('omit')), 'errs0': trace[0]['errs'],
-            'value0': case['value0'], 'ops': [op[:-1] for op in case['ops']]}
+    den = limits_den(case, trace)
+    ops = []
+    for op in case['ops']:
+        if op[0] == 'write':
+            ops.append(['write', lsc(den, op[1]), op[2], lsc(den, op[3])])
+        else:
+            ops.append([op[0]] + [lsc(den, v) for v in op[1:-1]])
+    return {'p': 'C18', 'k': 'limits', 'lo': lsc(den, case['lo']), 'hi': lsc(den, case['hi']), 'layers': wire_layers(case),
+            'hasW': case['hasW'], 'omit': bool(case.get('omit')), 'errs0': trace[0]['errs'],
+            'value0': lsc(den, case['value0']), 'ops': ops}
+
+
+def scaled_limits(den, lim):
+    return {'min': lsc(den, lim['min']), 'max': lsc(den, lim['max']), 'limits': lsc(den, lim['limits'])}
 
 
 def judge_limits_req(case, trace):
-    keys = ('write', 'stopAt', 'echo', 'setLimits', 'ok', 'before', 'after', 'value')
-    return {'p': 'C18', 'k': 'judge_limits', 'layers': wire_layers(case), 'trace': [{k: t[k] for k in keys} for t in trace]}
+    den = limits_den(case, trace)
+    return {'p': 'C18', 'k': 'judge_limits', 'layers': wire_layers(case),
+            'trace': [{'write': lsc(den, t['write']), 'stopAt': t['stopAt'], 'echo': t['echo'], 'setLimits': lsc(den, t['setLimits']),
+                       'ok': t['ok'], 'before': scaled_limits(den, t['before']), 'after': scaled_limits(den, t['after']),
+                       'value': lsc(den, t['value'])} for t in trace]}
 
 
-def limits_canon(case, t):
+def limits_canon(case, t, den=1):
     """observation compared with the model: the model carries all three limit parameters, the code only those that exist"""
-    return {'value': t['value'], 'min': t['after']['min'], 'max': t['after']['max'], 'limits': t['after']['limits'],
-            'errs': t['errs'], 'evs': t['evs'], 'ok': t['ok'], 'exc': t['exc']}
+    return {'value': lsc(den, t['value']), 'min': lsc(den, t['after']['min']), 'max': lsc(den, t['after']['max']),
+            'limits': lsc(den, t['after']['limits']), 'errs': t['errs'], 'evs': [[e[0]] + lsc(den, e[1:]) for e in t['evs']],
+            'ok': t['ok'], 'exc': t['exc']}
 
 
 def model_limits_canon(case, s):
@@ -999,8 +1048,21 @@ def gen_limits(rng, big):
     def inside():
         return rng.randrange(lo, hi + 1, step) if not is_int else LSCALE * rng.randint(lo // LSCALE, hi // LSCALE)
 
+    # what the limit parameters hold if every operation generated so far was accepted (quarter units)
+    refs = {'min': lo, 'max': hi, 'lim_lo': lo, 'lim_hi': hi}
+
+    def near_limit():
+        """a binary64 value right next to a limit (one ulp, a relative offset of 2^-k, an absolute offset of 10^-e, on either
+        side): "outside its current limits" does not depend on how far outside.  Strictly inside the range of the datatype,
+        where FloatRange.validate leaves a value as it is (its clamping band at the ends of the range is not modelled)."""
+        ref = rng.choice([refs['min']] * has['min'] + [refs['max']] * has['max'] + [refs['lim_lo'], refs['lim_hi']] * has['limits'])
+        x = near_value(rng, ref / LSCALE) * LSCALE if ref else rng.choice([-1, 1]) * LSCALE * 10.0 ** -rng.choice([6, 9, 10, 12, 15])
+        return x if lo < x < hi else ref
+
     def anyval():
         r = rng.random()
+        if not is_int and r < 0.14:
+            return near_limit()
         if r < 0.7:
             return inside()
         if r < 0.8:
@@ -1034,24 +1096,31 @@ def gen_limits(rng, big):
             ops.append(['write', x, checks(), w, via])
         elif r < 0.55 and has['min']:
             ops.append(['writeMin', anyval(), via])
+            refs['min'] = ops[-1][1]
         elif r < 0.65 and has['max']:
             ops.append(['writeMax', anyval(), via])
+            refs['max'] = ops[-1][1]
         elif r < 0.8 and has['limits']:
             a, b = anyval(), anyval()
             if rng.random() < 0.6 and a > b:
                 a, b = b, a
             ops.append(['writeLimits', a, b, via])
+            if a <= b:
+                refs['lim_lo'], refs['lim_hi'] = a, b
         elif r < 0.86:
             ops.append(['assign', anyval(), 'drv'])
         elif r < 0.9 and has['min']:
             ops.append(['assignMin', anyval(), 'drv'])
+            refs['min'] = ops[-1][1]
         elif r < 0.94 and has['max']:
             ops.append(['assignMax', anyval(), 'drv'])
+            refs['max'] = ops[-1][1]
         elif has['limits']:
             a, b = anyval(), anyval()
             if rng.random() < 0.7 and a > b:
                 a, b = b, a
             ops.append(['assignLimits', a, b, 'drv'])
+            refs['lim_lo'], refs['lim_hi'] = a, b
         else:
             x = anyval()
             ops.append(['write', x, checks(), 'none', via])
@@ -1230,7 +1299,8 @@ def prepare(case):
     if kind == 'limits':
         case = limits_case(case)
         trace = impl_limits(case)
-        return trace, wire_limits(case, trace), judge_limits_req(case, trace), [limits_canon(case, t) for t in trace]
+        den = limits_den(case, trace)
+        return trace, wire_limits(case, trace), judge_limits_req(case, trace), [limits_canon(case, t, den) for t in trace]
     if kind == 'labels':
         impl = impl_labels(case)
         model, canon = labels_requests(case, impl)
@@ -1448,6 +1518,8 @@ def _run_chunk(ctx, res, cases, offset, ncorpus, shrunk):
             for t in trace[1:]:
                 if t['stopAt'] is not None:
                     res.count('limits.check-returned-true')
+                if isinstance(t['write'], float):
+                    res.count('limits.write-next-to-a-limit-' + ('accepted' if t['ok'] else 'refused'))
         if nontrivial(case, trace):
             res.nontriv(case)
         if len(res.samples) < 6 and j >= ncorpus and len(case['ops']) <= 5 and nontrivial(case, trace) \
@@ -1478,7 +1550,7 @@ def _run_chunk(ctx, res, cases, offset, ncorpus, shrunk):
                     small, strace, sbad = case, trace, bad
                 else:
                     sbad = sigs[sig]
-                layout = f' (classes in MRO order, [min, max, limits declared, own check method, mixin]: ' \
+                layout = f' (all values x {LSCALE}; classes in MRO order, [min, max, limits declared, own check method, mixin]: ' \
                          f'{json.dumps(limits_case(small)["layers"])})' if kind == 'limits' else ''
                 what = f'{kind}{layout}: after {json.dumps(small["ops"][:sbad])} the recorded values are ' \
                        f'{json.dumps({k: v for k, v in strace[sbad].items() if k != "evs"})}'
